@@ -91,8 +91,8 @@ fn real_main() {
             "C15" => props::c15::run(tier, seed),
             "C11" => props::c11::run(tier, seed),
             "C06" => e3::run_check("C06", tier, seed, &["release", "wrapping"]),
-            "C07" => e3::run_check("C07", tier, seed, &["release"]),
-            "C08" => e3::run_check("C08", tier, seed, &["release"]),
+            "C07" => e3::run_check("C07", tier, seed, &["release", "wrapping"]),
+            "C08" => e3::run_check("C08", tier, seed, &["release", "wrapping"]),
             _ => {
                 eprintln!("unknown property {}", args[2]);
                 2
